@@ -471,8 +471,10 @@ class PoolManager(RequestMethods):
         if not redirect_location:
             return response
 
-        # Support relative URLs for redirecting.
-        redirect_location = urljoin(url, redirect_location)
+        # Support relative URLs for redirecting. A URL without scheme was
+        # fetched as http; urljoin() cannot resolve against it as it stands.
+        base_url = url if u.scheme else u._replace(scheme="http").url
+        redirect_location = urljoin(base_url, redirect_location)
 
         if response.status == 303:
             # Change the method according to RFC 9110, Section 15.4.4.
